@@ -88,7 +88,7 @@ def gen_readings(rng, n=None, kind=None):
     if kind == "small":
         xs = [dyadic(rng, 5, 2) for _ in range(n)]
     elif kind == "offset":                      # large offset, small spread
-        off = float(rng.choice([1 << 10, 1 << 16, 1 << 20, 1 << 24, 10 ** 6, 10 ** 8, -(10 ** 7)]))
+        off = float(rng.choice([1 << 10, 1 << 16, 1 << 20, 1 << 24, 10 ** 6, 10 ** 8, -(10 ** 7), 10 ** 9, 1 << 30]))
         xs = [off + dyadic(rng, 5, 3) for _ in range(n)]
     elif kind == "fine":
         xs = [dyadic(rng, 10, 10) for _ in range(n)]
@@ -110,26 +110,56 @@ def collinear(rng, xs):
     return 1.0, 0.0, list(xs)
 
 
+def typed_number(v, tag):
+    """the double v as a Python float / int / bool / Fraction or a numpy scalar (all are numbers.Real)"""
+    import numpy as np
+    if tag == "float":
+        return v
+    if tag == "int":
+        return int(v)
+    if tag == "bool":
+        return bool(v)
+    if tag == "fraction":
+        return Fraction(v)
+    return {"float64": np.float64, "float32": np.float32, "float16": np.float16, "int64": np.int64, "int32": np.int32,
+            "int16": np.int16}[tag](v)
+
+
 def build(qj):
-    """construct one quantity on the implementation from its JSON description"""
+    """construct one quantity on the implementation from its JSON description; an optional trailing dict gives
+    name (str), via ("array": the quantity is an element of a MeasurementArray), etype (number type of the error)"""
     import qexpy as q
     from qexpy.data.data import Constant
+    opts = qj[-1] if isinstance(qj[-1], dict) else {}
+    kw = {"name": opts["name"]} if opts.get("name") else {}
     t = qj[0]
     with warnings.catch_warnings():
         warnings.simplefilter("ignore")
         if t == "single":
-            return q.Measurement(fx(qj[1])) if qj[2] is None else q.Measurement(fx(qj[1]), fx(qj[2]))
+            v = fx(qj[1])
+            e = None if qj[2] is None else typed_number(fx(qj[2]), opts.get("etype", "float"))
+            if opts.get("via") == "array":
+                arr = q.MeasurementArray([v, v + 1.0], None if e is None else [e, e], **kw)
+                return arr[0]
+            return q.Measurement(v, **kw) if e is None else q.Measurement(v, e, **kw)
         if t == "repeated":
             xs = [fx(h) for h in qj[1]]
             xs = make_container(xs, qj[3])
             e = qj[2]
             if e is None:
-                return q.Measurement(xs)
+                return q.Measurement(xs, **kw)
             if isinstance(e, list):
-                return q.Measurement(xs, [fx(h) for h in e])
-            return q.Measurement(xs, fx(e))
+                es = [fx(h) for h in e]
+                et = opts.get("etype", "float")
+                if et == "ndarray":
+                    import numpy as np
+                    es = np.array(es)
+                elif et == "int" and all(float(x).is_integer() for x in es):
+                    es = [int(x) for x in es]
+                return q.Measurement(xs, es, **kw)
+            return q.Measurement(xs, typed_number(fx(e), opts.get("etype", "float")), **kw)
         if t == "derived":                      # value * 1 is a DerivedValue with the same error
-            return q.Measurement(fx(qj[1]), fx(qj[2])) * 1
+            return q.Measurement(fx(qj[1]), fx(qj[2]), **kw) * 1
         if t == "constant":
             return Constant(fx(qj[1]))
     raise ValueError(qj)
